@@ -119,4 +119,48 @@ theorem save_then_load_of_wfX {S} (decode : Bytes → Option S) (t : List Stmt) 
     (run_frame _ _ .last (hno .last (Or.inl rfl)))
     (run_frame _ _ (.model it) (hno (.model it) (Or.inr rfl)))
 
+/-! ### exceptions inside a write: the clean-up of a well-formed table only closes files -/
+
+theorem run_closes (d : Dir) (a cl : List FsOp) (h : ∀ o ∈ cl, ∃ f, o = .close f) : run d (a ++ cl) = run d a := by
+  rw [run_append]
+  generalize run d a = d'
+  induction cl generalizing d' with
+  | nil => rfl
+  | cons o r ih =>
+    obtain ⟨f, rfl⟩ := h o List.mem_cons_self
+    rw [run_cons]
+    exact ih (fun o' ho' => h o' (List.mem_cons_of_mem _ ho')) _
+
+theorem unwindOps_closes (xt : List XStmt) (hwf : wfUnwind xt = true) (it : Int) (chunks : List Bytes) (i : Nat) :
+    ∀ o ∈ unwindOps xt it chunks i, ∃ f, o = .close f := by
+  intro o ho
+  simp only [unwindOps, List.mem_flatMap, List.mem_filter] at ho
+  obtain ⟨xj, ⟨hmem, hcond⟩, ho⟩ := ho
+  have hx : xj.1 ∈ xt := by
+    have := List.mem_zipIdx hmem
+    rw [this.2.2]
+    exact List.getElem_mem _
+  simp only [wfUnwind, List.all_eq_true] at hwf
+  have hw := hwf xj.1 hx
+  cases hu : xj.1.unwindFrom with
+  | none => simp [hu] at hcond
+  | some a =>
+    simp only [hu, Option.isNone_some, Bool.false_or] at hw
+    cases hs : xj.1.stmt with
+    | closeF f =>
+      rw [hs] at ho
+      simp only [instStmt, List.mem_singleton] at ho
+      exact ⟨_, ho⟩
+    | openW f => rw [hs] at hw; cases hw
+    | writePayload f => rw [hs] at hw; cases hw
+    | writeLabel f => rw [hs] at hw; cases hw
+    | replace a b => rw [hs] at hw; cases hw
+    | prune => rw [hs] at hw; cases hw
+
+/-- **an exception raised inside any write of a save leaves the directory of the corresponding crash prefix**: for a
+table whose exceptional path only closes files, unwinding changes nothing on disk -/
+theorem run_excOps (xt : List XStmt) (hwf : wfUnwind xt = true) (d : Dir) (it : Int) (chunks : List Bytes) (n m : Nat) :
+    run d (excOps xt it chunks n m) = run d (crashAt (opsOf (xt.map (·.stmt)) it chunks) n (some m)) :=
+  run_closes d _ _ (unwindOps_closes xt hwf it chunks _)
+
 end DirectVerif.Ckpt
